@@ -170,8 +170,11 @@ def judge_and_report(pid, mod, agg, tier, seed, wall):
         "wall_s": round(wall, 2),
         "violations": len(fresh),
     }
-    os.makedirs(os.path.join(VERIF, "evidence"), exist_ok=True)
-    with open(os.path.join(VERIF, "evidence", pid + ".json"), "w") as f:
+    # evidence/ always describes runs against /repo itself; runs against another tree (seeded changes, mutants) go elsewhere
+    other = os.environ.get("VERIF_REPO") not in (None, "", "/repo")
+    evdir = os.path.join(VERIF, "build", "evidence_other_tree") if other else os.path.join(VERIF, "evidence")
+    os.makedirs(evdir, exist_ok=True)
+    with open(os.path.join(evdir, pid + ".json"), "w") as f:
         json.dump(ev, f, indent=1, default=repr)
     for l in lines:
         print(l)
